@@ -62,13 +62,15 @@ Example C16_stop_terminates_nonvacuous :
   is_stw (pc (th (run_stream cfg_fixed rr3 60 (run cfg_fixed live_sched (init_all live_progs))) 0)) = false.
 Proof. split; [exact rr3_fair | exact live_example]. Qed.
 
-(* The spawn-free hypothesis is needed for the code as it is: a thread registered after stop_threads has passed is
-   never flagged, and the stopper stays blocked for as long as that thread runs without entering a safepoint. *)
+(* The spawn-free hypothesis was needed for the tree before 56291059 (spawn_locked = false): a thread registered
+   after stop_threads has passed is never flagged, and the stopper stays blocked for as long as that thread runs
+   without entering a safepoint.  On the current tree no registration falls inside a section
+   (C15_no_unregistered_runner_during_section); C16_stop_terminates itself is still stated for spawn-free scripts. *)
 Theorem C16_stop_delayed_by_late_registration :
-  let w := run cfg_fixed late_sched (init late_progs) in
+  let w := run cfg_pre_spawn_fix late_sched (init late_progs) in
   pc (th w 2) = Stw (SWait 1 1) /\ reg (th w 1) = true /\ paused (th w 1) = false /\
-  wstep cfg_fixed 2 w = None /\
-  wstep cfg_fixed 2 (run cfg_fixed (repeat 1 20) w) = None /\ prog (th (run cfg_fixed (repeat 1 20) w) 1) <> [].
+  wstep cfg_pre_spawn_fix 2 w = None /\
+  wstep cfg_pre_spawn_fix 2 (run cfg_pre_spawn_fix (repeat 1 20) w) = None /\ prog (th (run cfg_pre_spawn_fix (repeat 1 20) w) 1) <> [].
 Proof. exact late_registration_delays. Qed.
 
 (* Join handles (any lock discipline, any number of threads and joins, any schedule): a thread's result is delivered
